@@ -170,6 +170,9 @@ class Main(pipeline.Stream):
             p = self._random_program(rng, depth=3)
             p["peer"] = "socket"
             cases.append(p)
+        # (f) the same programs with the requests sent from a helper thread (every 5th case is run again that way)
+        for c in [c for i, c in enumerate(cases) if i % 5 == 0 and c["peer"] != "socket"]:
+            cases.append(dict(c, thread=True))
         return cases
 
     def _random_dict(self, rng, used):
@@ -239,6 +242,18 @@ class Main(pipeline.Stream):
         ops = case["ops"]
 
         def do_request(kind):
+            if not case.get("thread"):
+                return do_request_here(kind)
+            # the request is sent from another thread than the one that built the client and opened the blocks (a client
+            # object handed to a worker thread): the headers in force are those of the CLIENT, not of a thread
+            import threading
+            box = []
+            th = threading.Thread(target=lambda: box.append(do_request_here(kind)), daemon=True)
+            th.start()
+            th.join(30)
+            return bool(box and box[0])
+
+        def do_request_here(kind):
             n0 = len(sink)
             try:
                 if kind == "call":
